@@ -59,6 +59,23 @@ pub fn panic_message(p: &Box<dyn std::any::Any + Send>) -> (String, bool) {
     (msg, injected)
 }
 
+/// The engine's audit (hook H1) plus the public counters, which must agree with it.
+pub fn full_audit(st: &incremental::IncrState, after_stabilise: bool) -> Vec<String> {
+    let mut lines = st.verif_audit(after_stabilise);
+    let stats = st.stats();
+    let needed = st.verif_snapshot().nodes.iter().filter(|n| n.necessary).count();
+    if stats.necessary != needed {
+        lines.push(format!("stats().necessary = {} but {} live nodes are necessary", stats.necessary, needed));
+    }
+    if stats.became_necessary < stats.became_unnecessary || stats.became_necessary - stats.became_unnecessary != stats.necessary {
+        lines.push(format!(
+            "stats(): became_necessary {} - became_unnecessary {} != necessary {}",
+            stats.became_necessary, stats.became_unnecessary, stats.necessary
+        ));
+    }
+    lines
+}
+
 /// Reads every live observer handle and variable, runs the audit.
 fn probe_world(w: &Rc<World>, knobs: &Knobs, after_stabilise: bool) {
     if w.state.borrow().is_none() {
@@ -95,7 +112,10 @@ fn probe_world(w: &Rc<World>, knobs: &Knobs, after_stabilise: bool) {
     if knobs.audit {
         let st = w.state();
         if let Some(st) = st {
-            let lines = st.verif_audit(after_stabilise);
+            let lines = full_audit(&st, after_stabilise);
+            if w.dot_reads.get() && after_stabilise {
+                let _ = st.weak().save_dot_to_string();
+            }
             w.log(Ev::Audit { lines, after_stabilise });
         }
     }
